@@ -163,6 +163,14 @@ def check_branch(before, levels_after, top_before, d, ev, heur):
 def walk(prob, rng, model_reqs, steps=12):
     """random walk on the real engine; appends (request line, expected answer, replay) to model_reqs
     and returns the list of direct violations"""
+    try:
+        with nv.guard(30):
+            return _walk(prob, rng, model_reqs, steps)
+    except nv.Hang as e:
+        return [{"op": "walk", "kind": "hang", "problem": prob.to_json(), "detail": f"a propagation pass / decision of the real engine did not return: {e}"}], {"bc": 0, "branch": 0, "backtrack": 0}
+
+
+def _walk(prob, rng, model_reqs, steps=12):
     eng = RealEngine(prob)
     props = eng.sorted_props()
     enc = prob.enc()
